@@ -20,7 +20,10 @@ THEOREMS = [
     "HgVerif.GState.history_irrelevant",
     "HgVerif.GState.reuse_same_trace",
     "HgVerif.GState.run_trace_is_spec",
+    "HgVerif.GState.run_spec_general",
     "HgVerif.GState.persistent_sink_appends",
+    "HgVerif.GState.sink_on_replay_key_records_nothing",
+    "HgVerif.GState.fuel_enough",
 ]
 CXX_TARGETS = ["hgv_gstate"]
 RULE = ("gstate streams: sequences of 2-6 harness runs (graphs inc/mul10/acc/two/pinc, dense|sparse layout) over 1-2 named "
